@@ -66,6 +66,12 @@ fn menus(class: &str) -> Vec<Logical> {
     fn enabled(i: usize) -> Variant {
         Variant::Bool(i % 2 == 1)
     }
+    fn dist_a(i: usize) -> Variant {
+        Variant::Float32(10.0 + i as f32)
+    }
+    fn dist_b(i: usize) -> Variant {
+        Variant::Float32(200.0 + i as f32)
+    }
     match class {
         "Part" => vec![
             Logical { spellings: vec![("Size", size), ("size", size)] },
@@ -83,6 +89,12 @@ fn menus(class: &str) -> Vec<Logical> {
             Logical { spellings: vec![("Enabled", enabled)] },
             Logical { spellings: vec![("ZzFoo", foo)] },
         ],
+        // two canonical properties of the bundled database that are stored under one serialized name
+        "Sound" => vec![
+            Logical { spellings: vec![("MaxDistance", dist_a), ("RollOffMaxDistance", dist_b)] },
+            Logical { spellings: vec![("Volume", dist_a)] },
+            Logical { spellings: vec![("ZzFoo", foo)] },
+        ],
         _ => vec![
             Logical { spellings: vec![("ZzFoo", foo)] },
             Logical { spellings: vec![("ZzBar", bar)] },
@@ -91,7 +103,7 @@ fn menus(class: &str) -> Vec<Logical> {
     }
 }
 
-pub const CLASSES: [&str; 4] = ["Part", "TextLabel", "ScreenGui", "ZzUnknown"];
+pub const CLASSES: [&str; 5] = ["Part", "TextLabel", "ScreenGui", "ZzUnknown", "Sound"];
 
 /// An instance configuration: per logical property 0 = absent, k = spelling k-1.
 fn config_count(class: &str) -> usize {
@@ -248,12 +260,15 @@ pub fn judge(c: &Case08) -> Vec<(String, String)> {
     }
     // every canonical property any instance carries, with a sample wire value
     let mut carried: BTreeMap<String, Variant> = BTreeMap::new();
+    // spellings under which each read-back name was carried
+    let mut carried_as: BTreeMap<String, Vec<String>> = BTreeMap::new();
     let mut own: Vec<BTreeMap<String, String>> = Vec::new();
     for (k, code) in c.configs.iter().enumerate() {
         let mut m = BTreeMap::new();
         for (name, v) in props_for(class, *code, k) {
             if let Some((canon, rendered)) = expected_own(class, &name, &v) {
                 carried.entry(canon.clone()).or_insert_with(|| v.clone());
+                carried_as.entry(canon.clone()).or_default().push(name.clone());
                 m.insert(canon, rendered);
             }
         }
@@ -283,8 +298,14 @@ pub fn judge(c: &Case08) -> Vec<(String, String)> {
                 },
                 None => {
                     let want = expected_default(class, canon, sample);
+                    // "the database default for that class, or the type's neutral value when the database
+                    // has none": when the column was carried under a property that has no default of its
+                    // own (Sound.MaxDistance is stored as RollOffMaxDistance) the neutral value is as good
+                    let neutral_ok = carried_as.get(canon).map(|names| names.iter().any(|n| specdb::default_value(class, &canonical_guess(class, n)).is_none())).unwrap_or(false);
+                    let neutral_rendered = neutral(sample.ty()).map(|v| r(&v));
                     match (got.get(canon), &want) {
                         (Some(g), Some(w)) if g == w => {}
+                        (Some(g), _) if neutral_ok && Some(g) == neutral_rendered.as_ref() => {}
                         (None, _) => out.push((
                             format!("c08|default-missing|{}|{}", class, canon),
                             format!("[{}]: instance {} lacks {} and should show the default {:?} but the property is absent", desc.join(", "), k, canon, want),
